@@ -3,12 +3,13 @@ from .opcheck import OperatorCheck
 
 class C01(OperatorCheck):
     id = "C01"
+    use_a4 = {"quick": True, "thorough": True}
     cfgs = ("p",)
     rule = ("E-in: every strongly consistent base of B1 (256 one-conditional bases over the 16 truth functions of {a,b}) x all "
             "264 queries of Q2, of B2 (pairs over the 72-class sub-alphabet) x 81 semantic query classes + 8 foreign-atom "
             "queries, and one representative per conditional structure of all <=4-subsets of the 24 literal conditionals "
             "over {a,b,c} x all type-level queries (|V|<=2,|F|<=2 world types) + 72 literal queries; oracle: "
-            "'D u {(!B|A)} has no tolerance partition' by brute force over worlds. distinct_nontrivial = distinct "
+            "'D u {(!B|A)} has no tolerance partition' by brute force over worlds. plus structure representatives of the <=4-subsets of a 12-element chain/bridge alphabet over FOUR atoms x 124 literal queries. distinct_nontrivial = distinct "
             "(base, query) pairs not decided by a vacuity rule on which implementation and reference agree.")
     assumptions = ["reference model vf/ref.py (self-tested against 'accepted by every ranking model' in setup)",
                    "inputs outside the named scopes are not covered by this check"]
